@@ -151,6 +151,7 @@ import (
 //@   nilable source
 //@   ensures ints: forallT T in ints :: typeis(source, T) ==> err == nil && val != nil && bigval(val) == Z(unbox(source, T))
 //@   ensures ptrs: forallT T in ints :: typeis(source, *T) ==> err == nil && ite(isnil(unbox(source, *T)), val == nil, val != nil && bigval(val) == Z(old(*unbox(source, *T))))
+//@   ensures big: typeis(source, *big.Int) ==> err == nil && val == unbox(source, *big.Int)
 //@   ensures null: source == nil ==> val == nil && err == nil
 
 //@ func convertFromBigInt
@@ -158,6 +159,7 @@ import (
 //@   nilable val
 //@   requires value: !wasNull ==> val != nil
 //@   ensures ints: forallT T in ints :: typeis(dest, *T) && !isnil(unbox(dest, *T)) ==> ite(wasNull, err == nil && Z(*unbox(dest, *T)) == 0, (err == nil && Z(*unbox(dest, *T)) == bigval(val)) || (err != nil && !InRange(T, bigval(val))))
+//@   ensures big: typeis(dest, *big.Int) && !isnil(unbox(dest, *big.Int)) ==> err == nil && (wasNull ==> bigval(unbox(dest, *big.Int)) == 0) && (!wasNull ==> bigval(unbox(dest, *big.Int)) == bigval(val))
 //@   ensures nildest: forallT T in ints :: typeis(dest, *T) && isnil(unbox(dest, *T)) ==> err != nil
 
 //@ func float64ToFloat32
